@@ -526,8 +526,8 @@ func findRepAndSegmentID(a *asset, segmentPart string) (r *RepData, segID int, e
 			return nil, -1, fmt.Errorf("bad segment match")
 		}
 		segID, err = strconv.Atoi(mParts[1])
-		if err != nil {
-			return nil, -1, err
+		if err != nil { // more digits than an int holds: no such segment
+			return nil, -1, fmt.Errorf("segment id %s: %w", mParts[1], errNotFound)
 		}
 		return rep, segID, nil
 	}
@@ -553,7 +553,7 @@ func createOutSeg(vodFS fs.FS, a *asset, cfg *ResponseConfig, segmentPart string
 	switch cfg.getRepType(segmentPart) {
 	case segmentNumber, timeLineNumber:
 		nr := uint32(segID)
-		if nr < uint32(cfg.getStartNr()) {
+		if segID > math.MaxUint32 || nr < uint32(cfg.getStartNr()) {
 			return so, errNotFound
 		}
 		so.meta, err = findSegMetaFromNr(a, rep, nr, cfg, nowMS)
@@ -591,7 +591,7 @@ func findSegMeta(a *asset, cfg *ResponseConfig, segmentPart string, nowMS int) (
 		switch cfg.getRepType(segmentPart) {
 		case segmentNumber, timeLineNumber:
 			nr := uint32(segID)
-			if nr < uint32(cfg.getStartNr()) {
+			if segID > math.MaxUint32 || nr < uint32(cfg.getStartNr()) {
 				return sm, errNotFound
 			}
 			sm, err = findSegMetaFromNr(a, rep, nr, cfg, nowMS)
@@ -646,7 +646,7 @@ func findRefSegMeta(a *asset, cfg *ResponseConfig, segmentPart string, nowMS int
 	switch cfg.getRepType(segmentPart) {
 	case segmentNumber, timeLineNumber:
 		outSegNr := uint32(segID)
-		if outSegNr < uint32(cfg.getStartNr()) {
+		if segID > math.MaxUint32 || outSegNr < uint32(cfg.getStartNr()) {
 			return refMeta, errNotFound
 		}
 		refMeta, err = findSegMetaFromNr(a, a.refRep, outSegNr, cfg, nowMS)
